@@ -15,11 +15,12 @@ import (
 // (strings.HasPrefix) supply the edges; a query is a shortest-path question.
 
 type dbm struct {
-	info  *types.Info
-	g     *Graph
-	edges map[string]map[string]int
-	nodes map[string]bool
-	busy  map[types.Object]bool
+	info    *types.Info
+	g       *Graph
+	edges   map[string]map[string]int
+	nodes   map[string]bool
+	busy    map[types.Object]bool
+	busySum map[string]bool
 }
 
 const zeroNode = "0"
@@ -291,6 +292,27 @@ func (d *dbm) noteTerm(e ast.Expr) {
 	// x % m: 0 <= result <= m-1 when x, m non-negative ; x / k <= x
 	if b, isB := base.(*ast.BinaryExpr); isB {
 		switch b.Op {
+		case token.ADD:
+			// a sum of two variable terms is a node of its own: it is at least each operand when the other is
+			// non-negative
+			if _, isC := constInt(d.info, b.Y); !isC {
+				if _, isC2 := constInt(d.info, b.X); !isC2 && !d.busySum[t] {
+					if d.busySum == nil {
+						d.busySum = map[string]bool{}
+					}
+					d.busySum[t] = true
+					xt, xk, okX := d.term(b.X)
+					yt, yk, okY := d.term(b.Y)
+					if okX && okY {
+						if d.nonNeg(b.Y) {
+							d.addLE(xt, xk, t, 0)
+						}
+						if d.nonNeg(b.X) {
+							d.addLE(yt, yk, t, 0)
+						}
+					}
+				}
+			}
 		case token.REM:
 			if d.nonNeg(b.X) {
 				d.addLE(zeroNode, 0, t, 0)
@@ -731,6 +753,25 @@ func newDBM(g *Graph, f Facts, assumed []assumedFact) *dbm {
 					}
 				}
 			}
+		}
+	}
+	// C <= A - B  (written `A - B < C` false: what is left of a buffer behind a cursor covers C)  =>  B + C <= A,
+	// with the sum as one term (it is what a slice bound `buf[off : off+m]` is compared with)
+	for atom, ra := range f.rel {
+		if v, ok := f.m[atom]; !ok || v || ra.Op != token.LSS {
+			continue
+		}
+		sub, isSub := ast.Unparen(ra.X).(*ast.BinaryExpr)
+		if !isSub || sub.Op != token.SUB {
+			continue
+		}
+		at, ak, ok := d.term(sub.X)
+		if !ok {
+			continue
+		}
+		d.noteTerm(sub.X)
+		for _, sum := range []ast.Expr{&ast.BinaryExpr{X: sub.Y, Op: token.ADD, Y: ra.Y}, &ast.BinaryExpr{X: ra.Y, Op: token.ADD, Y: sub.Y}} {
+			d.addLE(normStr(d.info, sum), 0, at, ak)
 		}
 	}
 	// x ≡ y (x is a copy of the slice / map header y, neither reassigned since): same length
